@@ -142,6 +142,9 @@ func c13Mode(o *cli.Opts, run *evid.Run, bin, mode string) {
 			if !run.Wants(rkey) {
 				continue
 			}
+			if liveness.hung() && run.Violations() > 0 {
+				continue // the server stopped answering: the violations already recorded are the verdict
+			}
 			c13Round(o, run, ks, srv, mode, rkey, n, sigs)
 		}
 		if marks := srv.CrashMarks(); len(marks) > 0 {
@@ -161,7 +164,7 @@ func c13Mode(o *cli.Opts, run *evid.Run, bin, mode string) {
 		if srv, err := startServer(pbin, ks, o, "c13-"+mode+"-plain", env); err == nil {
 			for rd := 0; rd < o.Pick(3, 12); rd++ {
 				rkey := fmt.Sprintf("%s/plain-binary/round%d", key, rd)
-				if run.Wants(rkey) {
+				if run.Wants(rkey) && !(liveness.hung() && run.Violations() > 0) {
 					c13Round(o, run, ks, srv, mode, rkey, []int{8, 16, 12}[rd%3], sigs)
 				}
 			}
